@@ -271,7 +271,8 @@ def check(c):
         out.violations.append(Violation(exc_bucket("reload", e) + ("|ungrammatical" if not ok else "|semantic"),
                                         "serialised text does not load: %s: %s%s\n%s\nprogram: %r" % (type(e).__name__, e, where, text, bb.operations)))
         return out
-    mm = canon.compare_programs(bb, p)
+    with canon.strict_zero_sign():
+        mm = canon.compare_programs(bb, p)
     out.violations.extend(K.mismatch_violations("roundtrip", mm, "%s\nprogram: %r %r %r" % (text, bb.operations, bb.target, bb.programtype)))
     if out.violations:
         return out
@@ -295,7 +296,8 @@ def check(c):
         if e is not None:
             out.violations.append(Violation(exc_bucket("reload-after-edit", e), "text serialised after editing %s does not load: %s\n%s" % (edited, e, text2)))
             return out
-        mm = canon.compare_programs(bb, p2)
+        with canon.strict_zero_sign():
+            mm = canon.compare_programs(bb, p2)
         out.violations.extend(K.mismatch_violations("roundtrip-after-edit", mm, "edited %s in place after a first dumps\nfirst text:\n%s\nsecond text:\n%s" % (
             edited, text, text2)))
     return out
